@@ -8,6 +8,7 @@ import DtailModel.Generated.Code
 import DtailModel.Lemmas.GoRT
 import DtailModel.Lemmas.GoStr
 import DtailModel.Lemmas.Command
+set_option autoImplicit false
 namespace Dtail.GenRegex
 open Dtail Dtail.Go Dtail.Gen.Regex
 
